@@ -301,6 +301,10 @@ var scenarios = []scenario{
 	sc("sc-out-settings-grow", 200, ev(6, 10), ev(1, 1, 1, -1, 0), ev(7, 1, 1000, 1), ev(6, 2000), ev(9, 1)),
 	sc("sc-wu-overflow", 200, ev(1, 1, 0, -1, 0), ev(3, 1, 2147483647), ev(3, 0, 2147483647)),
 	sc("sc-wu-sign", 200, ev(1, 1, 1, -1, 0), ev(3, 1, 4294967295), ev(7, 1, 65536, 0)),
+	sc("sc-dropped-then-full", 200, ev(2, 9, 1000, 0), ev(1, 1, 0, -1, 0), ev(1, 3, 0, -1, 0), ev(2, 1, 65536, 0), ev(2, 3, 1, 0), ev(5, 1, 70000)),
+	sc("sc-overrun-then-full", 200, ev(1, 1, 0, 10, 0), ev(2, 1, 1000, 0), ev(1, 3, 0, -1, 0), ev(2, 3, 65536, 0), ev(1, 5, 0, -1, 0), ev(2, 5, 1, 0)),
+	sc("sc-bodyclosed-then-full", 200, ev(1, 1, 0, -1, 0), ev(8, 1), ev(2, 1, 1000, 0), ev(1, 3, 0, -1, 0), ev(2, 3, 65536, 0), ev(1, 5, 0, -1, 0), ev(2, 5, 1, 0)),
+	sc("sc-dropped-over-session", 200, ev(1, 1, 0, -1, 0), ev(2, 1, 65000, 0), ev(2, 9, 1000, 0), ev(2, 1, 536, 0), ev(5, 1, 70000)),
 	sc("sc-settings-overflow", 200, ev(1, 1, 0, -1, 0), ev(3, 1, 2147418111), ev(6, 65537), ev(9, 1)),
 	sc("sc-head-with-body", 200, ev(1, 1, 0, -1, 2), ev(1, 3, 1, -1, 2), ev(7, 3, 10, 1)),
 	sc("sc-bad-content-length", 200, ev(1, 1, 0, -2, 0), ev(1, 3, 0, -3, 0), ev(1, 5, 1, -2, 0), ev(2, 5, 1, 0)),
